@@ -283,6 +283,32 @@ func c19Summary(g *ssa.Function) *c19Sum {
 	return sm
 }
 
+// c19TaintedOverUnredactedEdge: v (through conversions) is a variable merged from several branches, and a value
+// carrying URN text arrives over the non-redacting edge of a policy test.
+func c19TaintedOverUnredactedEdge(v ssa.Value) bool {
+	seen := map[ssa.Value]bool{}
+	var walk func(v ssa.Value) bool
+	walk = func(v ssa.Value) bool {
+		v = core.StripConv(v)
+		ph, ok := v.(*ssa.Phi)
+		if !ok || seen[v] {
+			return false
+		}
+		seen[v] = true
+		for i, e := range ph.Edges {
+			if policyEdgeInto(ph.Block().Preds[i], ph.Block()) == -1 {
+				if t, _ := urnTaint(e); t {
+					return true
+				}
+			} else if walk(e) {
+				return true
+			}
+		}
+		return false
+	}
+	return walk(v)
+}
+
 // c19IsPolicyTest: v is env.RedactionPolicy() == urns.
 func c19IsPolicyTest(v ssa.Value) bool {
 	// the test written as a helper of the module: every return of the helper is the test
@@ -402,6 +428,12 @@ func checkC19(p *core.Program, r *core.Report) {
 					point = true
 					r.OK("R1", "ContactURN.ToXValue/unredacted-edge", p.Pos(cs.Pos()), "URN text on the edge where the policy is not urns")
 				}
+				// the policy test chooses the value instead of the constructor call: a variable that receives URN text only
+				// over the non-redacting edge of the test (the sink loop above has judged every other edge)
+				if c19TaintedOverUnredactedEdge(cs.Common().Args[0]) {
+					point = true
+					r.OK("R1", "ContactURN.ToXValue/unredacted-edge-value", p.Pos(cs.Pos()), "URN text flows into the value only over the edge where the policy is not urns")
+				}
 			}
 		}
 		r.Check(point, "R1", "ContactURN.ToXValue/conversion-point", p.Pos(toX.Pos()), "URN text is produced under the policy test", "ContactURN.ToXValue does not hand out URN text under a redaction policy test at all (the positive direction: without the policy expressions see the URN)")
@@ -446,11 +478,13 @@ func checkC19(p *core.Program, r *core.Report) {
 	{
 		fieldsOf := func(v ssa.Value) map[string]bool {
 			out := map[string]bool{}
-			for w := range core.BackSlice(v, func(*ssa.Call) bool { return true }) {
-				if fa, ok := w.(*ssa.FieldAddr); ok && len(format.Params) > 0 && fa.X == ssa.Value(format.Params[0]) {
+			// also the fields read by a helper of the package that is handed the contact (a parameter of the helper is
+			// continued in the argument of its call)
+			c14Slice(v, nil, core.FuncPkgPath(format), 2, func(*ssa.Call) bool { return true }, func(w ssa.Value, ctx *c14Ctx) {
+				if fa, ok := w.(*ssa.FieldAddr); ok && len(format.Params) > 0 && c14Canon(fa.X, ctx, format) == "recv" {
 					out[core.FieldAddrVar(fa).Name()] = true
 				}
-			}
+			})
 			return out
 		}
 		idOnRedacting := false
@@ -682,16 +716,40 @@ func c19R2(p *core.Program, r *core.Report) {
 	if pq != nil {
 		// wherever a constant starting with `tel` is used to build text (Sprintf format or concatenation)
 		ok, nTel := true, 0
-		core.EachInstr(pq, false, func(_ *ssa.Function, in ssa.Instruction) {
+		type telUse struct {
+			in  ssa.Instruction
+			ctx *c14Ctx
+		}
+		judged := map[telUse]bool{}
+		judge := func(in ssa.Instruction, ctx *c14Ctx) {
+			if judged[telUse{in, ctx}] {
+				return
+			}
+			judged[telUse{in, ctx}] = true
 			for _, op := range in.Operands(nil) {
 				if s, isC := core.ConstString(*op); isC && strings.HasPrefix(s, "tel") {
 					nTel++
-					if policyEdge(in.Block()) != -1 && !c19UnderNonEmptyFromUnredacted(in.Block()) {
+					// the non-redacting edge is where the text is built, or where the helper that builds it is called
+					unredacted := policyEdge(in.Block()) == -1 || c19UnderNonEmptyFromUnredacted(in.Block())
+					for c := ctx; c != nil; c = c.up {
+						if policyEdge(c.call.Block()) == -1 || c19UnderNonEmptyFromUnredacted(c.call.Block()) {
+							unredacted = true
+						}
+					}
+					if !unredacted {
 						ok = false
 					}
 				}
 			}
-		})
+		}
+		core.EachInstr(pq, false, func(_ *ssa.Function, in ssa.Instruction) { judge(in, nil) })
+		// ... also in the helpers of the package that make the text ParseQuery hands to the lexer (C14/R6's slice)
+		_, inputs := c14LexerInputs(pq)
+		for _, li := range inputs {
+			if in, isInstr := li.v.(ssa.Instruction); isInstr {
+				judge(in, li.ctx)
+			}
+		}
 		ok = ok && nTel > 0
 		r.Check(ok, "R2", "ParseQuery/tel-rewrite-unredacted-only", p.Pos(pq.Pos()), "a bare number becomes `tel = ...` only when the policy is not urns", "a bare number is rewritten into a tel query under redaction")
 	}
